@@ -3,6 +3,7 @@
 import Driver.Common
 import GivaroModel.Model.RecInt
 import GivaroModel.Spec.RecIntSpec
+import GivaroModel.Spec.RecIntMixedSpec
 -- @driver-mode recint Driver.RecInt.recintLine
 namespace Driver.RecInt
 open Driver
@@ -88,10 +89,45 @@ def recintConvModel (op : String) (n : Nat) (a : List Int) : Option (List Int) :
   | "cvs_back", [z] => some (List.replicate 4 (rint_to_mpz (ofNat n (z % (Bn n : Int)).toNat)))
   | _, _ => none
 
+/-- mixed operands: `mx_<form> K 0 cls ty x w y = rt res…` -/
+def recintMixedLine (line : String) (op : String) (args res : List String) : String :=
+  match parseAll args, parseAll res with
+  | some [K, _, cls, ty, x, w, y], some r =>
+    match Givaro.Spec.RecInt.mixedSpec (op.drop 3).toString K.toNat cls.toNat ty.toNat x w y r with
+    | none => "BAD nofunc | " ++ line
+    | some (pre, ok) =>
+      if !pre then "PRE" else
+      -- the model of the (repaired) code, where there is one: the recursive operand enters as its image modulo 2^bits
+      let n := K.toNat - 6
+      let form := (op.drop 3).toString
+      let a : RU n := ofNat n (x % (Bn n : Int)).toNat
+      let rd (r : RU n) : Int := if cls = 0 then (val r : Int) else (if 2 * val r < Bn n then (val r : Int) else (val r : Int) - Bn n)
+      let model : Option Int :=
+        if form == "add_xt" || form == "add_tx" || form == "addeq" || form == "add3" || form == "add2" || form == "add3c" then some (rd (add_s a w))
+        else if form == "sub_xt" || form == "subeq" || form == "sub3" || form == "sub2" || form == "sub3c" then some (rd (sub_s a w))
+        else if form == "sub_tx" then some (rd (rsub_s a w))
+        else if form == "mul_xt" || form == "mul_tx" || form == "muleq" || form == "mul3" || form == "mul2" then some (rd (mul_s a w))
+        else if cls = 0 && form == "cmp" then some (cmp_s a w)
+        else if cls = 0 && (form == "div_xt" || form == "diveq" || form == "divq") then some (rd (divq_s 10 a w))
+        else if cls = 0 && (form == "mod_xt" || form == "modeq") then some (rd (mod_s 10 a w))
+        else if cls = 0 && (form == "shl_xt" || form == "shleq") then some (rd (left_shift a w.toNat))
+        else if cls = 0 && (form == "shr_xt" || form == "shreq") then some (rd (right_shift a w.toNat))
+        else none
+      let modelOk := match model, r with
+        | some m, _ :: v :: _ => m == v
+        | _, _ => true
+      if ok && modelOk then "OK"
+      else
+        let kind := if !ok && !modelOk then "BOTH" else if !ok then "SPEC" else "MODEL"
+        let ms := match model with | none => "-" | some m => hexInt m
+        s!"DIFF kind={kind} model={ms} | {line.trimAscii.toString}"
+  | _, _ => if res == ["EXC"] then s!"DIFF kind=SPEC model=- | {line.trimAscii.toString}" else "BAD args | " ++ line
+
 def recintLine (line : String) : String :=
   match splitLine line with
   | none => "BAD empty"
   | some (op, args, res) =>
+    if op.startsWith "mx_" then recintMixedLine line op args res else
     match args with
     | ks :: ts :: rest =>
       match parseHexNat ks, parseHexNat ts, parseAll rest with
